@@ -10,14 +10,22 @@ where
     if let Some(prev) = maybe_prev {
         if event.is_subject == prev.is_subject {
             if prev.is_vertical() {
+                #[cfg(feature = "verif-hooks")]
+                crate::verif::hit(crate::verif::Site::CfSameOperandVerticalPrev);
                 // A vertical predecessor is not crossed: the event starts on its right-hand side.
                 event.set_in_out(prev.is_in_out(), prev.is_other_in_out());
             } else {
+                #[cfg(feature = "verif-hooks")]
+                crate::verif::hit(crate::verif::Site::CfSameOperand);
                 event.set_in_out(!prev.is_in_out(), prev.is_other_in_out());
             }
         } else if prev.is_vertical() {
+            #[cfg(feature = "verif-hooks")]
+            crate::verif::hit(crate::verif::Site::CfOtherOperandVerticalPrev);
             event.set_in_out(!prev.is_other_in_out(), !prev.is_in_out());
         } else {
+            #[cfg(feature = "verif-hooks")]
+            crate::verif::hit(crate::verif::Site::CfOtherOperand);
             event.set_in_out(!prev.is_other_in_out(), prev.is_in_out());
         }
 
@@ -25,15 +33,23 @@ where
         // part of the result and not a vertical segment. Otherwise connect
         // to its previous in result if any.
         if prev.is_in_result() && !prev.is_vertical() {
+            #[cfg(feature = "verif-hooks")]
+            crate::verif::hit(crate::verif::Site::CfPrevInResultDirect);
             event.set_prev_in_result(prev);
         } else if let Some(prev_of_prev) = prev.get_prev_in_result() {
+            #[cfg(feature = "verif-hooks")]
+            crate::verif::hit(crate::verif::Site::CfPrevInResultInherited);
             event.set_prev_in_result(&prev_of_prev);
         } else {
+            #[cfg(feature = "verif-hooks")]
+            crate::verif::hit(crate::verif::Site::CfPrevInResultNone);
             // Clearing prev_in_result is necessary for re-computations, if the first
             // computation has already set prev_in_result, but it is no longer valid now.
             event.unset_prev_in_result();
         }
     } else {
+        #[cfg(feature = "verif-hooks")]
+        crate::verif::hit(crate::verif::Site::CfNoPrev);
         event.set_in_out(false, true);
         // Clearing prev_in_result is necessary for re-computations, if the first
         // computation has already set prev_in_result, but it is no longer valid now.
